@@ -142,10 +142,10 @@ Proof.
   - injection H as <- <- <-. apply SPp_refl.
   - destruct op as [pid|]; [|exact (IH _ _ _ _ _ H)].
     destruct (aget pid pl) as [p|] eqn:Hg; [|exact (IH _ _ _ _ _ H)].
-    destruct (p_info p) as [i|]; [|injection H as <- <- <-; apply SPp_refl].
+    destruct (p_info p) as [i|]; [|exact (IH _ _ _ _ _ H)].
     destruct (memz uid (i_done i)); [exact (IH _ _ _ _ _ H)|].
     destruct (tvalue st <=? tvalue T_AGENT_EXECUTING); [exact (IH _ _ _ _ _ H)|].
-    destruct (negb (memz uid (i_tasks i))); [injection H as <- <- <-; apply SPp_refl|].
+    destruct (negb (memz uid (i_tasks i))); [exact (IH _ _ _ _ _ H)|].
     cbn [i_used] in H.
     destruct (i_used i - cores <? 0).
     + injection H as <- <- <-. apply (SPp_aset_some _ _ p); [exact Hg|reflexivity].
